@@ -190,7 +190,23 @@ def make_inputs(input_list, repeat=None):
     return mock_input
 
 
-class PrintingStringIO(StringIO):
+class CapturingStringIO(StringIO):
+    """ A StringIO that still reports what was written to it after student
+    code has closed it (e.g., via ``sys.stdout.close()``). """
+    _closed_value = None
+
+    def close(self):
+        if not self.closed:
+            self._closed_value = super().getvalue()
+        super().close()
+
+    def getvalue(self):
+        if self.closed and self._closed_value is not None:
+            return self._closed_value
+        return super().getvalue()
+
+
+class PrintingStringIO(CapturingStringIO):
     _ORIGINAL_STDOUT = sys.stdout
 
     def __init__(self, stdout=None, *args, **kwargs):
